@@ -14,12 +14,12 @@ P = {
    text="Every execution of the real quantile routines over: all weak-order patterns of lane length <= bound (complete for all inputs of that length by the comparison-only argument), two value tables per element type (spread / type extremes), a q grid that sits on, 1 and 2 ulps either side of every index boundary and .5 fraction, all five strategies, i8/u8/i64/u64/N64, all pivot sequences; plus n-D shapes x axes x all layouts with deviation-bounded pivots, plus lanes of 13..96 (250) elements under adversarial pivot policies (recursion depth n-1). Oracle: full sort + both readings of the position. Both build profiles.",
    note="Complete up to the stated lane length in 1-D; n-D part is exhaustive over layouts x a finite content family, pivots deviation-bounded. q values are a grid, not all of [0,1]. Trusted: the sort-based oracle, ndarray's slicing used to build layouts.", ref="4/C01"),
  "C02": dict(engine=E1, technique="stateless DFS over ALL pivot sequences of the real quickselect (pivot hook) for every weak-order pattern and index / index set up to a length bound; deviation-bounded search above it",
-   text="All inputs (by the comparison-only argument) of length <= 7 (8 thorough) for single selection and <= 6 (7) for bulk selection, every index / every subset of indexes in three presentations, under every pivot sequence the generator could produce; value, post-selection ordering, key order and multiset are compared with a sort-based reference on every execution. Above the bound: all sequences over 3 keys, 3 pivot policies, <= 1 (2) deviations; every length 13..96 (250) x 6 input families x index sets under always-first / always-last / alternating-ends / middle pivots (recursion depth n-1), single and bulk, also on reversed views. The empty array with the empty request; shared ArcArray / borrowing CowArray handles (all pivots; also in the checked build in the quick tier); call histories: every ordered pair of (array, request) combinations back to back on one thread, including rejected requests as the first call.",
+   text="All inputs (by the comparison-only argument) of length <= 7 (8 thorough) for single selection and <= 6 (7) for bulk selection, every index / every subset of indexes in three presentations, under every pivot sequence the generator could produce; value, post-selection ordering and key order are compared with a sort-based reference on every execution (a changed multiset or a modified cell outside the view is counted, not reported: that is C03). Above the bound: all sequences over 3 keys, 3 pivot policies, <= 1 (2) deviations; every length 13..96 (250) x 6 input families x index sets under always-first / always-last / alternating-ends / middle pivots (recursion depth n-1), single and bulk, also on reversed views. The empty array with the empty request; shared ArcArray / borrowing CowArray handles (all pivots; also in the checked build in the quick tier); call histories: every ordered pair of (array, request) combinations back to back on one thread, including rejected requests as the first call.",
    note="Exhaustive within the length bound; beyond it only deviation-bounded. Assumes the pivot hook captures all nondeterminism (self-checked by re-execution).", ref="4/C02"),
  "C03": dict(engine=E1, technique="exhaustive enumeration of layouts (axis permutation x step x offset inside a sentinel parent) x contents x pivot sequences; lane-multiset and guard-cell monitor on the parent buffer before/after every mutating call",
    text="Every mutating routine is run on every view layout of small 1-D..4-D arrays embedded in a sentinel-filled parent; after each execution every lane must hold the same multiset (bit patterns), and every parent cell outside the view must be unchanged; a second ArcArray handle sharing the buffer / an array borrowed by a CowArray must be unchanged; long lanes under adversarial pivot policies.",
    note="1-D: complete over weak-order patterns x strides x all pivots; n-D: finite content family x all layouts x deviation-bounded pivots.", ref="4/C03"),
- "C04": dict(engine=E1, technique="exhaustive enumeration of all missing/non-missing masks up to a length bound x strides x offsets x all 14 MaybeNan element types on the real remove_nan_mut, with address-set, multiset, guard-cell, idempotence and determinism oracles (thorough: same enumeration re-run under Miri and AddressSanitizer as secondary monitors)",
+ "C04": dict(engine=E1, technique="exhaustive enumeration of all missing/non-missing masks up to a length bound x strides x offsets x all 14 MaybeNan element types on the real remove_nan_mut, with address-set, multiset (of the returned view), idempotence and determinism oracles (thorough: same enumeration re-run under Miri and AddressSanitizer as secondary monitors)",
    text="Behaviour of NaN removal depends only on the missing-value mask, so all masks of length 0..8 (10) x strides {1,2,3,-1,-2,-3} x offsets x every MaybeNan type is every input up to that length; returned view must be the filter of the input as a multiset, alias only input cells, contain no missing value, be idempotent and deterministic; lanes of n-D arrays along every axis in every layout via map_axis_skipnan_mut / quantile_axis_skipnan_mut. The n-D lanes go through quantile_axis_skipnan_mut with strategy, q and pivot policy rotating with the case.",
    note="Complete up to the mask length bound. Value-level oracle cannot see UB that happens to produce right values; Miri/ASan in the thorough tier watch the same executions for that.", ref="4/C04"),
  "C05": dict(engine=E1, technique="exhaustive enumeration of all arrays over a 7-value float alphabet (NaN, infinities, signed zeros, ties) up to length 5 and of weak-order patterns for integers, x shapes 0-D..4-D incl. zero-length axes x all layouts x static/dynamic dimensionality, against an independent scan",
@@ -50,10 +50,10 @@ P = {
    text="Every sequence of length 0..6 (7) over 6 values, via From<Vec> and From<Array1> (fresh, narrowed, stepped, reversed owned arrays), probes below/on/between/above every edge, i32 and N64; Bins and Grid accessors cross-checked with points presented as owned arrays and reversed / stepped views.",
    note="Complete up to the size bound.", ref="4/C13"),
  "C14": dict(engine=E1, technique="exhaustive enumeration of missing-value masks x weak-order patterns x axes x layouts x pivot sequences; oracle = filter then plain reference",
-   text="Every mask x every pattern on the remaining elements up to length 5 in 1-D (all pivots), n-D shapes x every axis x all layouts; f64, f32, Option<i32>; all skip-NaN entry points. On a deterministic eighth of the pivot sequences the same call and a per-axis fold are repeated on the array as the first call left it.",
+   text="Every mask x every pattern on the remaining elements up to length 5 in 1-D (all pivots), n-D shapes x every axis x all layouts; f64, f32, Option<i32>; all skip-NaN entry points. After one pivot sequence of the first call per case the same call and a per-axis fold are repeated on the array as the first call left it.",
    note="Complete up to the 1-D bound; n-D exhaustive over layouts x finite content family.", ref="4/C14"),
  "C15": dict(engine=E1, technique="exhaustive enumeration of all weak-order patterns up to length 8 (9) x every pivot position x view strides on the real partition_mut, against a rank-count reference; both build profiles",
-   text="All inputs (comparison-only argument) of length 1..8, every pivot position, strides {1,2,-1,3,-2}, three element types incl. type extremes and a non-Copy type; long arrays up to 2100 (4200) elements: returned index == number of strictly smaller elements, partition post-condition, multiset, guard cells, no panic. Fourth element type: NotNone<i32>, the crate's own hand-written ordered wrapper.",
+   text="All inputs (comparison-only argument) of length 1..8, every pivot position, strides {1,2,-1,3,-2}, three element types incl. type extremes and a non-Copy type; long arrays up to 2100 (4200) elements: returned index == number of strictly smaller elements, partition post-condition, no panic (multiset and guard cells are observed and counted; reporting them is C03's). Fourth element type: NotNone<i32>, the crate's own hand-written ordered wrapper.",
    note="Complete up to the length bound.", ref="4/C15"),
  "C16": dict(engine=E1, technique="stateless DFS over all pivot sequences for every in-range and out-of-range request on arrays of length 0..6, in builds with and without debug assertions / overflow checks; oracle: must / must not unwind",
    text="Every weak-order pattern of length 0..6 (7), get/partition at every in-range position and six out-of-range ones, bulk selection with out-of-range entries mixed in at every position; request lists of 33..130 entries; Bins::index and Grid::index over all small edge sets and index tuples incl. wrong arity and positions next to usize::MAX and 2^63. Call histories: every sequence of 2 calls from a menu of 80 and every sequence of 3 bulk calls on one thread (the verdict of a call must not depend on earlier calls).",
